@@ -48,7 +48,7 @@ CAP = 3          # |component| beyond this = unbounded drift in a loop
 
 
 def vadd(a, b):
-    return (a[0] + b[0], a[1] + b[1], a[2] + b[2])
+    return tuple(x + y for x, y in zip(a, b))
 
 
 def is_user_call(t):
@@ -77,45 +77,67 @@ class Exit:
         self.kind = kind; self.vec = vec; self.key = key; self.flags = flags
 
 
-class Ledger:
-    def __init__(self, prog, r):
+class BodyCtx:
+    """per-body facts the model hooks need"""
+    pass
+
+
+class LedgerBase:
+    """the fixpoint engine; a model supplies the events (hooks below)"""
+    N = 3
+    IGNORE_FLAGS = ('dead',)       # exits carrying one of these flags are outside the books
+
+    def __init__(self, prog):
         self.prog = prog
-        self.r = r
-        ug = r.users_guard()
-        self.UG = ug[0] if ug else None
+        self.ZERO = tuple([0] * self.N)
         self.summaries = {}
         self.results = {}        # body path -> (exits, parents)
         self.in_progress = set()
         self.problems = []       # (body, line, message)
-        self.ret_helper = {h.path for h in r.RETURN if h.path != r.OBJ_DROP.path}
-        self.take_helper = {h.path for h in r.TAKE if h.path != r.OBJ_TAKE.path}
-        self.helper_paths = self.ret_helper | self.take_helper
         self.n_states = 0
         self.n_events = 0
         self.n_user_unwinds = 0
         self.n_cancel_edges = 0
         self.touched = set()      # bodies in which a ledger event occurs
 
+    # ---- hooks ------------------------------------------------------------------------------------------------
+    def is_local(self, b):
+        raise NotImplementedError
+    def kind_of_ty(self, ty):
+        return None
+    def entry_vec(self, b):
+        return self.ZERO
+    def body_ctx(self, b, an, tr):
+        return BodyCtx()
+    def stmt_event(self, b, an, bc, s):
+        """effect of an assignment statement: (vector or None, note)"""
+        return None, ''
+    def call_event(self, b, an, bc, blk, t, ini, tr, dest):
+        """(vector, note) when the call is a ledger event, else None"""
+        return None
+    def call_disowns(self, b, an, bc, t, tr):
+        """tracked locals that stop owning their resource because of this call (e.g. `obj.field.take()`)"""
+        return ()
+    def switch_event(self, b, an, bc, blk, t, lab, on, tr):
+        """(vector or None, note, flags to add) for one arm of a switch"""
+        return None, '', ()
+    def drop_effect(self, kind):
+        """effect of dropping an owning tracked local of this kind (None: no effect on the books here)"""
+        return None
+    def pend_call(self, b, an, bc, blk, t):
+        """effect id when the call yields a *maybe* resource (Option / Result): the effect is applied where the value is
+        resolved to present (Some / Ok / Continue arm, unwrap) and not applied on the absent arm"""
+        return None
+    def pend_effect(self, eff):
+        return self.ZERO, ''
+    def unresumed_kinds(self):
+        """kinds whose drop inside a never-polled future has an effect"""
+        return ()
+
+    # ---- machinery --------------------------------------------------------------------------------------------
     def _ev(self, b):
         self.n_events += 1
         self.touched.add(b.path)
-
-    def is_managed(self, b):
-        return b.path.startswith('deadpool::managed') or b.path.startswith('<deadpool::managed')
-
-    def kind_of_ty(self, ty):
-        if ty.startswith('&') or ty.startswith('*'):
-            return None
-        a = adt_of(ty)
-        if a == self.r.UNREADY:
-            return 'wrapper'
-        if self.UG and a == self.UG:
-            return 'uguard'
-        if a == self.r.OBJINNER:
-            return 'bare'
-        if a == 'std::option::Option' and ty.startswith('std::option::Option<') and adt_of(ty[len('std::option::Option<'):-1]) == self.r.OBJINNER:
-            return 'optbare'
-        return None
 
     def tracked(self, b):
         out = {}
@@ -125,13 +147,6 @@ class Ledger:
                 out[i] = k
         return out
 
-    def entry_vec(self, b):
-        if b.path in self.ret_helper:
-            return (-1, 0, 1)
-        if b.path in self.take_helper:
-            return (-1, 1, 1)
-        return ZERO
-
     def local_callee(self, t):
         if t.kind != 'call' or t.func.kind != 'const':
             return None
@@ -139,7 +154,7 @@ class Ledger:
         if not p or t.func.const.get('rk') == 'virtual':
             return None
         b = self.prog.bodies.get(p)
-        if b is None or not self.is_managed(b):
+        if b is None or not self.is_local(b):
             return None
         return b
 
@@ -155,21 +170,23 @@ class Ledger:
         s = self.summaries.get(b.path)
         if s is not None:
             return s
+        Z = self.ZERO
         if b.path in self.in_progress:
-            return {'return': {ZERO}, 'unwind': set(), 'cancel': {ZERO}, 'unresumed': {ZERO}}
+            return {'return': {Z}, 'unwind': set(), 'cancel': {Z}, 'unresumed': {Z}}
         self.in_progress.add(b.path)
         exits, parents = self.analyse(b)
         self.in_progress.discard(b.path)
-        s = {'return': set(), 'unwind': set(), 'cancel': set(), 'unresumed': {ZERO}}
+        s = {'return': set(), 'unwind': set(), 'cancel': set(), 'unresumed': {Z}, 'return_flags': set()}
         for e in exits:
-            if 'dead' in e.flags:
+            if any(f in e.flags for f in self.IGNORE_FLAGS):
+                if e.kind == 'return':
+                    s['return_flags'].add(frozenset(f for f in e.flags if isinstance(f, str) and f in self.IGNORE_FLAGS))
                 continue
             s.setdefault(e.kind, set()).add(e.vec)
         self.summaries[b.path] = s
         self.results[b.path] = (exits, parents)
         return s
 
-    # ------------------------------------------------------------------------------------------
     def witness(self, b, exit_):
         """source lines along one path from the entry to the exit state (consecutive duplicates removed)"""
         exits, parents = self.results[b.path]
@@ -192,24 +209,26 @@ class Ledger:
                     out.append(item)
         return out
 
-    # ------------------------------------------------------------------------------------------
+    def _handed_over(self, b, t, lf_n, mf, to):
+        for (l, cp, pd) in list(lf_n):
+            if l == mf:
+                sm = self.summary(self.prog.bodies[cp])
+                allv = (sm['return'] | sm['cancel'] | sm.get('unresumed', set()))
+                if allv - {self.ZERO}:
+                    self.problems.append((b, t.line, 'a future with ledger effects %s is handed to %s: its completion cannot be followed' % (sorted(allv), to)))
+
     def analyse(self, b):
-        prog = self.prog; r = self.r
+        prog = self.prog
+        ZERO = self.ZERO
         an = prog.an(b)
         tr = self.tracked(b)
-        qc = {blk.idx: m for blk, m in queue_calls(r, b, an)}
-        skip_e1 = b.path in (r.RESIZE.path, r.CLOSE.path)
-        skip_e2 = b.path == r.RETAIN.path
-        users_f = ('field', '%s.%s' % (r.INNER, r.USERS))
+        bc = self.body_ctx(b, an, tr)
         poll_dest = {}     # local (dest of a poll call) -> coroutine body
-        upgrade_dest = set()
         for blk in b.blocks:
             t = blk.term
             cb = self.local_callee(t)
             if cb is not None and t.dest is not None and t.dest.is_local() and cb.is_coroutine:
                 poll_dest[t.dest.local] = cb
-            if t.kind == 'call' and t.dest is not None and t.dest.is_local() and any(n.endswith('Weak::upgrade') or n.endswith('Weak::<T, A>::upgrade') for n in t.callee_names()):
-                upgrade_dest.add(t.dest.local)
         start_vec = self.entry_vec(b)
         start_init = frozenset(l for l in range(1, b.arg_count + 1) if l in tr)
         # state = (vec, init, futs, flags);  futs: frozenset of (local, coroutine path, polled)
@@ -234,6 +253,9 @@ class Ledger:
             """ledger effect of dropping a live (not completed) future of coroutine cp"""
             sm = self.summary(self.prog.bodies[cp])
             return (sm['cancel'] if polled else sm.get('unresumed', {ZERO})) or {ZERO}
+
+        def futurish(ty):
+            return ty.startswith('impl ') or 'Future' in ty or '{async' in ty or 'Pin<' in ty
 
         while work:
             steps += 1
@@ -267,30 +289,21 @@ class Ledger:
                                     ini.discard(src_l)
                                 if not op.place.proj:
                                     lf = fut_move(lf, src_l, dst)
-                        if rv.kind == 'agg' and rv.j.get('ak') == 'adt':
-                            adt = norm_path(strip_generics(rv.j['adt']))
-                            if adt == r.OBJECT:
-                                v = vadd(v, (1, 0, -1)); self._ev(b); notes.append('Object built')
-                            elif adt == r.OBJINNER:
-                                v = vadd(v, (0, -1, 0)); self._ev(b); notes.append('object created')
-                            elif self.UG and adt == self.UG:
-                                v = vadd(v, (0, 0, -1)); self._ev(b); notes.append('users guard armed')
-                        if rv.kind == 'agg' and rv.j.get('ak') == 'coroutine' and dst is not None and rv.j['def'] in prog.bodies and self.is_managed(prog.bodies[rv.j['def']]):
+                                    if rv.kind == 'use' and dst is not None:
+                                        for f_ in [f_ for f_ in fl if isinstance(f_, tuple) and f_[0] == 'pend' and f_[1] == src_l]:
+                                            fl.discard(f_); fl.add(('pend', dst, f_[2]))
+                        dv, nt = self.stmt_event(b, an, bc, s)
+                        if dv is not None:
+                            v = vadd(v, dv); self._ev(b)
+                        if nt:
+                            notes.append(nt)
+                        if rv.kind == 'agg' and rv.j.get('ak') == 'coroutine' and dst is not None and rv.j['def'] in prog.bodies and self.is_local(prog.bodies[rv.j['def']]):
                             lf.add((dst, rv.j['def'], False))
                         if dst is not None and dst in tr:
                             ini.add(dst)
-                        lf_ = s.place.last_field() if s.place.proj else None
-                        if lf_ == (r.SLOTS, r.SIZE) and s.place.proj[-1] == '.' + r.SIZE:
-                            op_, amt = classify_write(an, s)
-                            self._ev(b)
-                            if op_ == '+=' and amt == '1_usize':
-                                v = vadd(v, (0, 1, 0)); notes.append('size += 1')
-                            elif op_ == '-=' and amt == '1_usize':
-                                v = vadd(v, (0, -1, 0)); notes.append('size -= 1')
-                            elif not skip_e2:
-                                self.problems.append((b, s.line, 'size is written with `%s %s`: not an accountable event' % (op_, amt)))
                     elif s.kind == 'dead':
                         ini.discard(s.local)
+                        fl = {f_ for f_ in fl if not (isinstance(f_, tuple) and f_[0] == 'pend' and f_[1] == s.local)}
                         lf = {(l, cp, pd) for (l, cp, pd) in lf if l != s.local}
                 note = ', '.join(notes)
                 t = blk.term
@@ -304,41 +317,37 @@ class Ledger:
                                 ini2.discard(a.place.local)
                             if not a.place.proj and any(l == a.place.local for (l, cp, pd) in lf2):
                                 moved_futs.append(a.place.local)
+                    for l in self.call_disowns(b, an, bc, t, tr):
+                        ini2.discard(l)
                     cb = self.local_callee(t)
                     dest = t.dest.local if t.dest is not None and t.dest.is_local() else None
+                    evt = self.call_event(b, an, bc, blk, t, ini, tr, dest)
                     vn = v
-                    special = True
                     ev = ''
-                    if 'tokio::sync::Semaphore::add_permits' in names:
-                        amt = an.resolve_operand(t.args[1]) if len(t.args) > 1 else '?'
+                    if evt is not None:
+                        dv, ev = evt
+                        if dv is not None:
+                            vn = vadd(v, dv)
                         self._ev(b)
-                        if skip_e1:
-                            pass
-                        elif amt == '1_usize':
-                            vn = vadd(v, (1, 0, 0)); ev = 'add_permits(1)'
-                        else:
-                            self.problems.append((b, t.line, 'add_permits(%s): not an accountable amount' % amt))
-                    elif 'tokio::sync::SemaphorePermit::forget' in names:
-                        self._ev(b)
-                        if not skip_e1:
-                            vn = vadd(v, (-1, 0, 0)); ev = 'permit forgotten'
-                    elif any(n.endswith('::fetch_add') and 'atomic' in n for n in names) and t.args and users_f in sources(an, t.args[0]):
-                        vn = vadd(v, (0, 0, 1)); self._ev(b); ev = 'users += 1'
-                    elif any(n.endswith('::fetch_sub') and 'atomic' in n for n in names) and t.args and users_f in sources(an, t.args[0]):
-                        vn = vadd(v, (0, 0, -1)); self._ev(b); ev = 'users -= 1'
-                    elif t.args and t.args[0].kind == 'move' and not t.args[0].place.proj and tr.get(t.args[0].place.local) == 'uguard' and t.args[0].place.local in ini:
-                        vn = vadd(v, (0, 0, 1)); self._ev(b); ev = 'users guard disarmed'     # the guard will never run (G-1)
-                    elif t.args and t.args[0].kind == 'move' and not t.args[0].place.proj and tr.get(t.args[0].place.local) == 'wrapper' and dest is not None and tr.get(dest) == 'bare':
-                        self._ev(b); ev = 'wrapper -> ready object'                            # ready(): W-1, B+1
-                    elif names & {'std::mem::drop', 'std::mem::forget'} and t.args and t.args[0].kind == 'move' and tr.get(t.args[0].place.local) in ('bare', 'optbare') \
-                            and t.args[0].place.local in ini:
-                        vn = vadd(v, (0, 1, 0)); self._ev(b); ev = 'object dropped'            # a bare object is destroyed (or leaked)
-                    elif bb in qc and qc[bb] in ('clear', 'truncate', 'drain') and b.path not in (r.RESIZE.path, r.RETAIN.path):
-                        self.problems.append((b, t.line, 'VecDeque::%s on the idle queue: an unaccountable number of objects leaves the queue' % qc[bb]))
-                    else:
-                        special = False
+                    # maybe-resources: created here, carried through combinators, resolved by unwrap
+                    fl = set(fl)
+                    for a in t.args:
+                        if a.kind == 'move' and not a.place.proj:
+                            for f_ in [f_ for f_ in fl if isinstance(f_, tuple) and f_[0] == 'pend' and f_[1] == a.place.local]:
+                                fl.discard(f_)
+                                if any(n.split('::')[-1] in ('unwrap', 'expect', 'unwrap_unchecked') for n in names):
+                                    pv, pn = self.pend_effect(f_[2])
+                                    vn = vadd(vn, pv); self._ev(b)
+                                    ev = ', '.join(x for x in (ev, pn) if x)
+                                elif dest is not None:
+                                    fl.add(('pend', dest, f_[2]))
+                                else:
+                                    self.problems.append((b, t.line, 'a value that may hold a pooled object is handed to %s: cannot be followed' % sorted(names)))
+                    pe = self.pend_call(b, an, bc, blk, t)
+                    if pe is not None and dest is not None:
+                        fl.add(('pend', dest, pe))
                     note2 = ', '.join(x for x in (note, ev) if x)
-                    if special or cb is None:
+                    if evt is not None or cb is None:
                         ini_n = set(ini2)
                         if dest is not None and dest in tr:
                             ini_n.add(dest)
@@ -346,14 +355,9 @@ class Ledger:
                         for mf in moved_futs:
                             # a live local future handed to foreign code (into_future, Pin::new, Box::pin ..) travels to the result;
                             # handed to a call without a future-typed result it is consumed there: account its whole life now
-                            keep_in = dest if dest is not None and (b.locals[dest]['ty'].startswith('impl ') or 'Future' in b.locals[dest]['ty'] or '{async' in b.locals[dest]['ty'] or 'Pin<' in b.locals[dest]['ty'] or b.locals[dest]['ty'] == b.locals[mf]['ty']) else None
+                            keep_in = dest if dest is not None and (futurish(b.locals[dest]['ty']) or b.locals[dest]['ty'] == b.locals[mf]['ty']) else None
                             if keep_in is None:
-                                for (l, cp, pd) in list(lf_n):
-                                    if l == mf:
-                                        sm = self.summary(self.prog.bodies[cp])
-                                        allv = (sm['return'] | sm['cancel'] | sm.get('unresumed', set()))
-                                        if allv - {ZERO}:
-                                            self.problems.append((b, t.line, 'a future with ledger effects %s is handed to %s: its completion cannot be followed' % (sorted(allv), sorted(names))))
+                                self._handed_over(b, t, lf_n, mf, sorted(names))
                             lf_n = fut_move(lf_n, mf, keep_in)
                         if t.target is not None:
                             emit('normal', t.target, vn, ini_n, lf_n, fl, t.line, note2)
@@ -363,7 +367,7 @@ class Ledger:
                             lf_u = set(lf2)
                             for mf in moved_futs:
                                 lf_u = fut_move(lf_u, mf, None)
-                            emit('unwind', t.unwind, v, ini2, lf_u, fl, t.line, (note + ', ' if note else '') + 'panic in %s' % sorted(names)[0].split('::')[-1])
+                            emit('unwind', t.unwind, v, ini2, lf_u, fl, t.line, (note + ', ' if note else '') + 'panic in %s' % (sorted(names)[0].split('::')[-1] if names else 'a callback'))
                         continue
                     # ---- local callee
                     sm = self.summary(cb)
@@ -382,12 +386,7 @@ class Ledger:
                         # constructor of an async fn: the arguments move into the future, nothing runs yet
                         lf_n = set(lf2)
                         for mf in moved_futs:
-                            for (l, cp, pd) in list(lf_n):
-                                if l == mf:
-                                    sm2 = self.summary(self.prog.bodies[cp])
-                                    allv = (sm2['return'] | sm2['cancel'] | sm2.get('unresumed', set()))
-                                    if allv - {ZERO}:
-                                        self.problems.append((b, t.line, 'a future with ledger effects %s is handed to %s: its completion cannot be followed' % (sorted(allv), cb.name)))
+                            self._handed_over(b, t, lf_n, mf, cb.name)
                             lf_n = fut_move(lf_n, mf, None)
                         if dest is not None:
                             lf_n.add((dest, co.path, False))
@@ -402,6 +401,13 @@ class Ledger:
                             ini_n.add(dest)
                         if t.target is not None:
                             emit('normal', t.target, vadd(v, rv_), ini_n, lf2, fl, t.line, (note + ', ' if note else '') + cb.name.split('::')[-1] + '()')
+                    for ff in sm.get('return_flags', ()):
+                        # the callee can return on a path that is outside the books (pool gone / closed): so is the rest of this path
+                        ini_n = set(ini2)
+                        if dest is not None and dest in tr:
+                            ini_n.add(dest)
+                        if t.target is not None:
+                            emit('normal', t.target, v, ini_n, lf2, set(fl) | set(ff), t.line, (note + ', ' if note else '') + cb.name.split('::')[-1] + '() [%s]' % ','.join(sorted(ff)))
                     if t.unwind is not None:
                         for uv in sm['unwind']:
                             emit('unwind', t.unwind, vadd(v, uv), ini2, lf2, fl, t.line, 'panic inside %s' % cb.name.split('::')[-1])
@@ -411,13 +417,18 @@ class Ledger:
                     note2 = note
                     if t.place.is_local():
                         l = t.place.local
+                        for f_ in [f_ for f_ in fl if isinstance(f_, tuple) and f_[0] == 'pend' and f_[1] == l]:
+                            # dropped without having been looked at: if it held the resource, the resource goes with it
+                            fl = set(fl); fl.discard(f_)
+                            pv, pn = self.pend_effect(f_[2])
+                            v2 = vadd(v2, pv); self._ev(b)
+                            note2 = (note2 + ', ' if note2 else '') + pn + ' (dropped unexamined)'
                         if l in ini2 and l in tr:
-                            k = tr[l]
-                            if k in ('bare', 'optbare'):
-                                v2 = vadd(v2, (0, 1, 0)); self._ev(b)
-                                note2 = (note + ', ' if note else '') + 'object dropped'
-                            else:
-                                self._ev(b)       # wrapper: S-1, W-1 (its Drop is an entry point); users guard: U-1, G-1 (R03.3)
+                            de = self.drop_effect(tr[l])
+                            self._ev(b)
+                            if de is not None:
+                                v2 = vadd(v2, de[0])
+                                note2 = (note + ', ' if note else '') + de[1]
                             ini2.discard(l)
                         hit = [(ll, cp, pd) for (ll, cp, pd) in lf2 if ll == l]
                         if hit:
@@ -434,15 +445,23 @@ class Ledger:
                     for lab, tgt in t.switch_arms():
                         v2 = v; ini2 = set(ini); lf2 = set(lf); fl2 = set(fl)
                         note2 = note
-                        if on is not None and not on['pr'] and tr.get(on['l']) == 'optbare' and lab == 'None':
+                        if on is not None and not on['pr'] and tr.get(on['l'], '').startswith('opt') and lab == 'None':
                             ini2.discard(on['l'])
-                        if on is not None and not on['pr'] and on['l'] in upgrade_dest and lab == 'None':
-                            fl2.add('dead')           # the pool is gone: there are no books to keep
-                        if t.j.get('dty') == 'bool' and b.path in self.helper_paths and not skip_e1:
-                            rel = cmp_relation(an, r, blk, lab)
-                            if rel and rel[0] in ('size>max', 'size>=max'):
-                                v2 = vadd(v2, (1, 0, 0)); self._ev(b)          # surplus: shrink debt paid
-                                note2 = (note + ', ' if note else '') + 'surplus branch'
+                        if on is not None and not on['pr']:
+                            for f_ in [f_ for f_ in fl2 if isinstance(f_, tuple) and f_[0] == 'pend' and f_[1] == on['l']]:
+                                if lab in ('Some', 'Ok', 'Continue'):
+                                    fl2.discard(f_)
+                                    pv, pn = self.pend_effect(f_[2])
+                                    v2 = vadd(v2, pv); self._ev(b)
+                                    note2 = (note2 + ', ' if note2 else '') + pn
+                                elif lab in ('None', 'Err', 'Break'):
+                                    fl2.discard(f_)
+                        dv, nt, addf = self.switch_event(b, an, bc, blk, t, lab, on, tr)
+                        if dv is not None:
+                            v2 = vadd(v2, dv); self._ev(b)
+                        if nt:
+                            note2 = (note2 + ', ' if note2 else '') + nt
+                        fl2 |= set(addf)
                         if t.j.get('adt') == 'std::task::Poll' and on is not None and not on['pr'] and on['l'] in poll_dest:
                             cb = poll_dest[on['l']]
                             if lab == 'Ready':
@@ -450,6 +469,8 @@ class Ledger:
                                 lf3 = {(l, cp, pd) for (l, cp, pd) in lf2 if cp != cb.path}
                                 for rv_ in (sm['return'] or set()):
                                     emit('normal', tgt, vadd(v2, rv_), ini2, lf3, fl2, t.line, (note + ', ' if note else '') + '%s completed' % cb.name.split('::')[-2])
+                                for ff in sm.get('return_flags', ()):
+                                    emit('normal', tgt, v2, ini2, lf3, fl2 | set(ff), t.line, (note + ', ' if note else '') + '%s completed [%s]' % (cb.name.split('::')[-2], ','.join(sorted(ff))))
                                 continue
                         emit('normal', tgt, v2, ini2, lf2, fl2, t.line, note2)
                 elif t.kind == 'return':
@@ -466,7 +487,7 @@ class Ledger:
                 else:
                     for k_, tgt in an.edges(bb):
                         if k_ == 'unwind':
-                            continue          # assert / overflow checks: arithmetic panics are C11's subject (no-wrap rules)
+                            continue          # assert / overflow checks: arithmetic panics are the no-wrap rules' subject
                         emit(k_, tgt, v, ini, lf, fl, t.line, note)
             for (k_, tgt, ns, note, from_st) in outs:
                 cur = states.setdefault(tgt, set())
@@ -480,10 +501,310 @@ class Ledger:
     def _note_unresumed(self, co):
         """effect of dropping the future of `co` before its first poll: its captured by-value arguments are dropped"""
         sm = self.summary(co)
-        unres = ZERO
+        unres = self.ZERO
         for d in co.debug:
             if 'p' in d and d['p']['l'] == 1 and d['p']['pr']:
                 k = self.kind_of_ty(d['p'].get('ty', ''))
-                if k in ('bare', 'optbare'):
-                    unres = vadd(unres, (0, 1, 0))
+                if k in self.unresumed_kinds():
+                    de = self.drop_effect(k)
+                    if de is not None:
+                        unres = vadd(unres, de[0])
         sm['unresumed'] = {unres}
+
+
+class Ledger(LedgerBase):
+    """the managed pool (E1 capacity, E2 size, E3 users)"""
+    N = 3
+
+    def __init__(self, prog, r):
+        LedgerBase.__init__(self, prog)
+        self.r = r
+        ug = r.users_guard()
+        self.UG = ug[0] if ug else None
+        self.ret_helper = {h.path for h in r.RETURN if h.path != r.OBJ_DROP.path}
+        self.take_helper = {h.path for h in r.TAKE if h.path != r.OBJ_TAKE.path}
+        self.helper_paths = self.ret_helper | self.take_helper
+
+    def is_local(self, b):
+        return b.path.startswith('deadpool::managed') or b.path.startswith('<deadpool::managed')
+    is_managed = is_local
+
+    def kind_of_ty(self, ty):
+        if ty.startswith('&') or ty.startswith('*'):
+            return None
+        a = adt_of(ty)
+        if a == self.r.UNREADY:
+            return 'wrapper'
+        if self.UG and a == self.UG:
+            return 'uguard'
+        if a == self.r.OBJINNER:
+            return 'bare'
+        if a == 'std::option::Option' and ty.startswith('std::option::Option<') and adt_of(ty[len('std::option::Option<'):-1]) == self.r.OBJINNER:
+            return 'optbare'
+        return None
+
+    def entry_vec(self, b):
+        if b.path in self.ret_helper:
+            return (-1, 0, 1)
+        if b.path in self.take_helper:
+            return (-1, 1, 1)
+        return self.ZERO
+
+    def body_ctx(self, b, an, tr):
+        r = self.r
+        bc = BodyCtx()
+        bc.qc = {blk.idx: m for blk, m in queue_calls(r, b, an)}
+        bc.skip_e1 = b.path in (r.RESIZE.path, r.CLOSE.path)
+        bc.skip_e2 = b.path == r.RETAIN.path
+        bc.users_f = ('field', '%s.%s' % (r.INNER, r.USERS))
+        bc.upgrade_dest = set()
+        for blk in b.blocks:
+            t = blk.term
+            if t.kind == 'call' and t.dest is not None and t.dest.is_local() and any(n.endswith('Weak::upgrade') or n.endswith('Weak::<T, A>::upgrade') for n in t.callee_names()):
+                bc.upgrade_dest.add(t.dest.local)
+        return bc
+
+    def stmt_event(self, b, an, bc, s):
+        r = self.r
+        rv = s.rv
+        if rv.kind == 'agg' and rv.j.get('ak') == 'adt':
+            adt = norm_path(strip_generics(rv.j['adt']))
+            if adt == r.OBJECT:
+                return (1, 0, -1), 'Object built'
+            if adt == r.OBJINNER:
+                return (0, -1, 0), 'object created'
+            if self.UG and adt == self.UG:
+                return (0, 0, -1), 'users guard armed'
+        lf_ = s.place.last_field() if s.place.proj else None
+        if lf_ == (r.SLOTS, r.SIZE) and s.place.proj[-1] == '.' + r.SIZE:
+            op_, amt = classify_write(an, s)
+            if op_ == '+=' and amt == '1_usize':
+                return (0, 1, 0), 'size += 1'
+            if op_ == '-=' and amt == '1_usize':
+                return (0, -1, 0), 'size -= 1'
+            if not bc.skip_e2:
+                self.problems.append((b, s.line, 'size is written with `%s %s`: not an accountable event' % (op_, amt)))
+            return self.ZERO, ''
+        return None, ''
+
+    def call_event(self, b, an, bc, blk, t, ini, tr, dest):
+        r = self.r
+        names = t.callee_names()
+        if 'tokio::sync::Semaphore::add_permits' in names:
+            amt = an.resolve_operand(t.args[1]) if len(t.args) > 1 else '?'
+            if bc.skip_e1:
+                return (None, '')
+            if amt == '1_usize':
+                return ((1, 0, 0), 'add_permits(1)')
+            self.problems.append((b, t.line, 'add_permits(%s): not an accountable amount' % amt))
+            return (None, '')
+        if 'tokio::sync::SemaphorePermit::forget' in names:
+            return (None, '') if bc.skip_e1 else ((-1, 0, 0), 'permit forgotten')
+        if any(n.endswith('::fetch_add') and 'atomic' in n for n in names) and t.args and bc.users_f in sources(an, t.args[0]):
+            return ((0, 0, 1), 'users += 1')
+        if any(n.endswith('::fetch_sub') and 'atomic' in n for n in names) and t.args and bc.users_f in sources(an, t.args[0]):
+            return ((0, 0, -1), 'users -= 1')
+        a0 = t.args[0] if t.args else None
+        if a0 is not None and a0.kind == 'move' and not a0.place.proj and tr.get(a0.place.local) == 'uguard' and a0.place.local in ini:
+            return ((0, 0, 1), 'users guard disarmed')          # the guard will never run (G-1)
+        if a0 is not None and a0.kind == 'move' and not a0.place.proj and tr.get(a0.place.local) == 'wrapper' and dest is not None and tr.get(dest) == 'bare':
+            return (None, 'wrapper -> ready object')                 # ready(): W-1, B+1
+        if names & {'std::mem::drop', 'std::mem::forget'} and a0 is not None and a0.kind == 'move' and tr.get(a0.place.local) in ('bare', 'optbare') and a0.place.local in ini:
+            return ((0, 1, 0), 'object dropped')                 # a bare object is destroyed (or leaked)
+        if blk.idx in bc.qc and bc.qc[blk.idx] in ('clear', 'truncate', 'drain') and b.path not in (r.RESIZE.path, r.RETAIN.path):
+            self.problems.append((b, t.line, 'VecDeque::%s on the idle queue: an unaccountable number of objects leaves the queue' % bc.qc[blk.idx]))
+            return (None, '')
+        return None
+
+    def switch_event(self, b, an, bc, blk, t, lab, on, tr):
+        if on is not None and not on['pr'] and on['l'] in bc.upgrade_dest and lab == 'None':
+            return None, 'pool gone', ('dead',)          # the pool is gone: there are no books to keep
+        if t.j.get('dty') == 'bool' and b.path in self.helper_paths and not bc.skip_e1:
+            rel = cmp_relation(an, self.r, blk, lab)
+            if rel and rel[0] in ('size>max', 'size>=max'):
+                return (1, 0, 0), 'surplus branch', ()              # surplus: shrink debt paid
+        return None, '', ()
+
+    def drop_effect(self, kind):
+        if kind in ('bare', 'optbare'):
+            return ((0, 1, 0), 'object dropped')
+        return None          # wrapper: S-1, W-1 (its Drop is an entry point); users guard: U-1, G-1 (R03.3)
+
+    def unresumed_kinds(self):
+        return ('bare', 'optbare')
+
+
+class UnmanagedLedger(LedgerBase):
+    """the unmanaged pool.
+
+        U1 = P + H - Q        object semaphore:  free permits + held permits - queued objects            (= 0 at rest)
+        U2 = S - Q - O        size counter:      size - queued - handed out                              (= 0 at rest)
+        U3 = Z + Hz + S       size semaphore:    free slots + held slots + size                          (= max_size)
+        U4 = A + G - Q        available counter: available + getters in flight - queued                  (= 0 at rest)
+
+    event                                   U1   U2   U3   U4
+     acquire ok / RAII release of a permit    0    0    0    0
+     forget of an object-semaphore permit    -1
+     forget of a size-semaphore permit                 -1
+     semaphore.add_permits(1)                +1
+     size_semaphore.add_permits(1)                     +1
+     queue.push                              -1   -1        -1
+     queue.pop resolved to Some              +1   +1        +1
+     Object { .. } built (O+1)                    -1
+     Object.obj taken out (O-1)                   +1
+     size.fetch_add(1) / fetch_sub(1)           +1/-1 +1/-1
+     available.fetch_add(1) / fetch_sub(1)                 +1/-1
+     get guard built (G+1) / disarmed (G-1)                +1/-1
+     get guard dropped while armed (A+1,G-1)                 0   (its Drop body is an entry point: entry G-1)
+
+    Paths on which the pool is closed (true arm of the pool's own is_closed(), after Semaphore::close, after the
+    clearing function) or gone (None arm of Weak::upgrade) are outside the books: close() resets them in bulk (R12.x).
+    """
+    N = 4
+    IGNORE_FLAGS = ('dead', 'closed', 'disarmed')
+
+    def __init__(self, prog, r):
+        LedgerBase.__init__(self, prog)
+        self.r = r
+        self.guard_drop = None
+        if r.GETGUARD:
+            gd = [x for x in prog.bodies.values() if x.j.get('impl_trait') == 'std::ops::Drop' and adt_of(x.j.get('impl_self', '')) == r.GETGUARD]
+            self.guard_drop = gd[0] if gd else None
+        self.guard_skips = set()
+        if self.guard_drop is not None:
+            from .ucommon import armed_flag_skips
+            restores = [blk for blk in self.guard_drop.blocks if blk.term.kind == 'call' and not blk.cleanup and any(n_.endswith('::fetch_add') for n_ in blk.term.callee_names())]
+            self.guard_skips = set(armed_flag_skips(prog, r, self.guard_drop, restores))
+        oadt = r.crate.adt(r.OBJECT)
+        self.obj_fields = {f['name'] for v in oadt['variants'] for f in v['fields'] if f['ty'].startswith('std::option::Option<')}
+
+    def is_local(self, b):
+        return b.path.startswith('deadpool::unmanaged') or b.path.startswith('<deadpool::unmanaged')
+
+    def kind_of_ty(self, ty):
+        if ty.startswith('&') or ty.startswith('*'):
+            return None
+        a = adt_of(ty)
+        if self.r.GETGUARD and a == self.r.GETGUARD:
+            return 'gguard'
+        if a == self.r.OBJECT:
+            return 'object'
+        return None
+
+    def entry_vec(self, b):
+        if self.guard_drop is not None and b.path == self.guard_drop.path:
+            return (0, 0, 0, -1)
+        return self.ZERO
+
+    def body_ctx(self, b, an, tr):
+        r = self.r
+        bc = BodyCtx()
+        bc.queue = {blk.idx: m for blk, m in r.queue_calls(b)}
+        bc.sems = {w for x, w in r.sem_calls(b, 'try_acquire') + r.sem_calls(b, 'acquire')}
+        bc.upgrade_dest = set(); bc.closed_dest = set(); bc.otake = set()
+        for blk in b.blocks:
+            t = blk.term
+            if t.kind != 'call' or t.dest is None or not t.dest.is_local():
+                continue
+            names = t.callee_names()
+            if any(n.endswith('Weak::upgrade') or n.endswith('Weak::<T, A>::upgrade') for n in names):
+                bc.upgrade_dest.add(t.dest.local)
+            cb = self.local_callee(t)
+            if cb is not None and cb.name.endswith('::is_closed'):
+                bc.closed_dest.add(t.dest.local)
+            if 'tokio::sync::Semaphore::is_closed' in names:
+                bc.closed_dest.add(t.dest.local)
+            if 'std::option::Option::take' in names and t.args and any(s[0] == 'field' and s[1].rsplit('.', 1)[0] == r.OBJECT and s[1].rsplit('.', 1)[1] in self.obj_fields for s in sources(an, t.args[0])):
+                bc.otake.add(blk.idx)
+        return bc
+
+    def stmt_event(self, b, an, bc, s):
+        rv = s.rv
+        if rv.kind == 'agg' and rv.j.get('ak') == 'adt':
+            adt = norm_path(strip_generics(rv.j['adt']))
+            if adt == self.r.OBJECT:
+                return (0, -1, 0, 0), 'Object built'
+            if self.r.GETGUARD and adt == self.r.GETGUARD:
+                return (0, 0, 0, 1), 'get guard armed'
+        return None, ''
+
+    def call_disowns(self, b, an, bc, t, tr):
+        # `this.obj.take()`: the Object local no longer owns an object (its Drop will find None)
+        out = []
+        if t.kind == 'call' and 'std::option::Option::take' in t.callee_names() and t.args:
+            for l, k in tr.items():
+                if k == 'object' and any(s[0] == 'field' and s[1].rsplit('.', 1)[0] == self.r.OBJECT for s in sources(an, t.args[0])):
+                    o = an.origin(t.args[0])
+                    out.append(l)
+        return out
+
+    def pend_call(self, b, an, bc, blk, t):
+        if bc.queue.get(blk.idx) == 'pop':
+            return 'pop'
+        if blk.idx in bc.otake:
+            return 'otake'
+        return None
+
+    def pend_effect(self, eff):
+        if eff == 'pop':
+            return (1, 1, 0, 1), 'object popped'
+        if eff == 'otake':
+            return (0, 1, 0, 0), 'object taken out of its handle'
+        return self.ZERO, ''
+
+    def call_event(self, b, an, bc, blk, t, ini, tr, dest):
+        r = self.r
+        names = t.callee_names()
+        if 'tokio::sync::Semaphore::add_permits' in names:
+            w = r.sem_of_call(b, t)
+            amt = an.resolve_operand(t.args[1]) if len(t.args) > 1 else '?'
+            if amt != '1_usize' or w is None:
+                self.problems.append((b, t.line, 'add_permits(%s) on %s: not an accountable event' % (amt, w)))
+                return (None, '')
+            return ((1, 0, 0, 0), 'semaphore.add_permits(1)') if w == 'SEM' else ((0, 0, 1, 0), 'size_semaphore.add_permits(1)')
+        if 'tokio::sync::SemaphorePermit::forget' in names:
+            if bc.sems == {'SEM'}:
+                return ((-1, 0, 0, 0), 'object permit forgotten')
+            if bc.sems == {'SIZESEM'}:
+                return ((0, 0, -1, 0), 'size permit forgotten')
+            self.problems.append((b, t.line, 'forget of a permit whose semaphore cannot be told (acquisitions here: %s)' % sorted(bc.sems)))
+            return (None, '')
+        if 'tokio::sync::Semaphore::close' in names:
+            return (None, 'semaphore closed')
+        for fld, vec in ((r.SIZE, (0, 1, 1, 0)), (r.AVAIL, (0, 0, 0, 1))):
+            for x, op_, amt in r.atomic_calls(b, fld):
+                if x.idx == blk.idx and op_ in ('fetch_add', 'fetch_sub'):
+                    if self.guard_drop is not None and b.path == self.guard_drop.path and fld == r.AVAIL and op_ == 'fetch_add' and amt == '1_isize':
+                        return ((0, 0, 0, 1), 'available += 1')
+                    if amt not in ('1_usize', '1_isize'):
+                        if r.CLEAR is not None and b.path == r.CLEAR.path:
+                            return (None, '')
+                        self.problems.append((b, t.line, '%s.%s(%s): not an accountable amount' % (fld, op_, amt)))
+                        return (None, '')
+                    sign = 1 if op_ == 'fetch_add' else -1
+                    return (tuple(sign * c for c in vec), '%s %s 1' % (fld, '+=' if sign > 0 else '-='))
+        if bc.queue.get(blk.idx) == 'push':
+            return ((-1, -1, 0, -1), 'object pushed')
+        if bc.queue.get(blk.idx) in ('clear', 'truncate', 'drain', 'remove', 'swap_remove', 'retain'):
+            if not (r.CLEAR is not None and b.path == r.CLEAR.path):
+                self.problems.append((b, t.line, 'Vec::%s on the queue: an unaccountable number of objects leaves the queue' % bc.queue[blk.idx]))
+            return (None, '')
+        a0 = t.args[0] if t.args else None
+        if a0 is not None and a0.kind == 'move' and not a0.place.proj and tr.get(a0.place.local) == 'gguard' and a0.place.local in ini:
+            return ((0, 0, 0, -1), 'get guard disarmed')
+        return None
+
+    def switch_event(self, b, an, bc, blk, t, lab, on, tr):
+        if on is not None and not on['pr'] and on['l'] in bc.upgrade_dest and lab == 'None':
+            return None, 'pool gone', ('dead',)
+        if self.guard_drop is not None and b.path == self.guard_drop.path and dict(t.switch_arms()).get(lab) in self.guard_skips:
+            # `armed` flag form: this arm is taken only by a guard that was disarmed (G-1 was accounted at the disarm call)
+            return None, 'guard was disarmed', ('disarmed',)
+        if t.j.get('dty') == 'bool' and lab == 'true':
+            src = sources(an, t.discr)
+            if any(s[0] == 'call' and (s[1].endswith('::is_closed')) for s in src) and not any(s[0] == 'bin' and s[1] == 'Not' for s in src):
+                return None, 'pool closed', ('closed',)
+        return None, '', ()
+
+    def drop_effect(self, kind):
+        return None          # get guard: A+1, G-1 (its Drop is an entry point); Object: its Drop is an entry point
